@@ -1,5 +1,5 @@
 /-
-  C13 helper lemmas — what each label does, spelled out; the "own record is fresh" invariant of timely runs.
+  C13 helper lemmas — what each label does, spelled out; the "own record is fresh" invariant of timely runs (views of any age).
 -/
 import Kopf.Lemmas.C13_Renew
 namespace Kopf.C13
@@ -31,7 +31,7 @@ theorem marginT_le {u L : Int} (hu : 0 < u) (hL : 1 ≤ L) : 0 < marginT u L ∧
     simp only [h2, if_false]
     omega
 
-/-! ### the own record of a running operator is fresh (timely, current-view runs) -/
+/-! ### the own record of a running operator is fresh (timely runs, views of any age, two-step graceful stops) -/
 
 /-- the invariant: a running operator that has touched once holds, under its identity, only records with its
     priority and lifetime whose deadline lies beyond the latest landing of its next touch. -/
@@ -103,7 +103,7 @@ theorem ownFresh_step {u B : Int} {s s' : State} {l : Label} (hu : 0 < u) (hB0 :
       · rw [updOp_other _ _ hij] at ho
         rw [hnow, hst]; exact hinv i o k ho hal hk
   | keepalive j lag =>
-    obtain ⟨oj, hoj, _, _, hnow, _, hst, hops⟩ := keepalive_spec h
+    obtain ⟨oj, hoj, _, hnow, _, hst, hops⟩ := keepalive_spec h
     obtain ⟨hLj, hmj⟩ := hcfg j oj hoj
     have hml := marginT_le hu hLj
     have hrec := touch_record_ok (p := oj.prio) (now := s.now) (k := s.now + (oj.lifetime * u - marginT u oj.lifetime))
@@ -203,8 +203,25 @@ theorem ownFresh_step {u B : Int} {s s' : State} {l : Label} (hu : 0 < u) (hB0 :
       by_cases hij : i = j
       · subst hij; simp at ho; subst ho; simp at hal
       · rw [updOp_other _ _ hij] at ho
+        obtain ⟨h1, h2, ⟨r0, hr0⟩, h4⟩ := hinv i o k ho hal hk
+        rw [hnow, hst]
+        exact ⟨h1, h2, ⟨r0, mem_erase.mpr ⟨hr0, hij⟩⟩, fun r hm => h4 r (mem_erase.mp hm).1⟩
+  | exitBegin j =>
+    obtain ⟨oj, hoj, _, _, hnow, hst, _, hops⟩ := exitBegin_spec h
+    refine ⟨?_, ?_⟩
+    · intro i o ho
+      rw [hops] at ho
+      by_cases hij : i = j
+      · subst hij; simp at ho; subst ho; exact hcfg i oj hoj
+      · rw [updOp_other _ _ hij] at ho; exact hcfg i o ho
+    · intro i o k ho hal hk
+      rw [hops] at ho
+      by_cases hij : i = j
+      · subst hij
+        simp at ho; subst ho
+        rw [hnow, hst]; exact hinv i oj k hoj hal hk
+      · rw [updOp_other _ _ hij] at ho
         rw [hnow, hst]; exact hinv i o k ho hal hk
-  | exitBegin j => exact absurd ha (by simp [Allowed])
   | wakeIssue j => exact absurd ha (by simp [Allowed])
   | land j => exact absurd ha (by simp [Allowed])
   | kill j =>
@@ -222,10 +239,25 @@ theorem ownFresh_step {u B : Int} {s s' : State} {l : Label} (hu : 0 < u) (hB0 :
       · rw [updOp_other _ _ hij] at ho
         rw [hnow, hst]; exact hinv i o k ho hal hk
   | deliver j => exact ownFresh_deliver hu ⟨hcfg, hinv⟩ h
-  | deliverStale j view =>
-    obtain ⟨oj, hoj, _, _, _, _, _, _⟩ := stale_spec h
-    rw [benign_eq_deliver hoj (ha oj hoj)] at h
-    exact ownFresh_deliver hu ⟨hcfg, hinv⟩ h
+  | deliverStale j view vv =>
+    -- whatever the view: a clean naming the current version is `deliver`; one naming an older version is refused
+    by_cases hv : vv = s.ver
+    · exact ownFresh_deliver hu ⟨hcfg, hinv⟩ (stale_current h hv).2
+    · obtain ⟨oj, hoj, _, _, hnow, hst, _, hops⟩ := stale_refused_spec h hv
+      refine ⟨?_, ?_⟩
+      · intro i o ho
+        rw [hops] at ho
+        by_cases hij : i = j
+        · subst hij; simp at ho; subst ho; exact hcfg i oj hoj
+        · rw [updOp_other _ _ hij] at ho; exact hcfg i o ho
+      · intro i o k ho hal hk
+        rw [hops] at ho
+        by_cases hij : i = j
+        · subst hij
+          simp at ho; subst ho
+          rw [hnow, hst]; exact hinv i oj k hoj hal hk
+        · rw [updOp_other _ _ hij] at ho
+          rw [hnow, hst]; exact hinv i o k ho hal hk
   | tick d =>
     simp only [step, Option.some.injEq] at h
     subst h
@@ -265,7 +297,7 @@ def staticAllowed (u B : Int) : Label → Bool
   | .start _ _ L => decide (1 ≤ L ∧ 2 * B < marginT u L)
   | .keepalive _ lag => decide ((lag : Int) ≤ B)
   | .wake _ lag => decide ((lag : Int) ≤ B)
-  | .exit _ | .exitLost _ | .exitEnd _ | .kill _ | .deliver _ => true
+  | .exit _ | .exitLost _ | .exitBegin _ | .exitEnd _ | .kill _ | .deliver _ | .deliverStale _ _ _ => true
   | _ => false
 
 theorem timely_run_static {u B : Int} : ∀ (ls : List Label) (s s' : State), Timely u B s →
@@ -318,14 +350,14 @@ theorem ops_none_of_not_started {u : Int} {i : Identity} : ∀ (ls : List Label)
         obtain ⟨_, _, _, _, hops⟩ := start_spec hs
         have hij : i ≠ j := fun e => hall _ List.mem_cons_self p L (by rw [e])
         rw [hops, updOp_other _ _ hij]; exact hn
-      | keepalive j lag => obtain ⟨oj, hj, _, _, _, _, _, hops⟩ := keepalive_spec hs; exact upd hj hops
+      | keepalive j lag => obtain ⟨oj, hj, _, _, _, _, hops⟩ := keepalive_spec hs; exact upd hj hops
       | exit j => obtain ⟨oj, hj, _, _, _, hops, _⟩ := exit_spec hs; exact upd hj hops
       | exitLost j => obtain ⟨oj, hj, _, _, _, hops, _⟩ := exitLost_spec hs; exact upd hj hops
-      | exitBegin j => obtain ⟨oj, hj, _, _, _, _, hops, _⟩ := exitBegin_spec hs; exact upd hj hops
+      | exitBegin j => obtain ⟨oj, hj, _, _, _, _, _, hops⟩ := exitBegin_spec hs; exact upd hj hops
       | exitEnd j => obtain ⟨oj, hj, _, _, _, _, _, hops⟩ := exitEnd_spec hs; exact upd hj hops
       | kill j => obtain ⟨oj, hj, _, _, _, hops, _⟩ := kill_spec hs; exact upd hj hops
       | deliver j => obtain ⟨oj, hj, _, _, _, _, _, hops⟩ := deliver_spec hs; exact upd hj hops
-      | deliverStale j v => obtain ⟨oj, hj, _, _, _, _, _, hops⟩ := stale_spec hs; exact upd hj hops
+      | deliverStale j v vv => obtain ⟨oj, _, hj, _, _, _, _, _, _, hops, _⟩ := stale_spec hs; exact upd hj hops
       | wake j lag => obtain ⟨oj, hj, _, _, _, hops, _⟩ := wake_spec hs; exact upd hj hops
       | wakeIssue j => obtain ⟨oj, hj, _, _, _, _, _, hops⟩ := wakeIssue_spec hs; exact upd hj hops
       | land j => obtain ⟨oj, _, hj, _, _, _, hops, _⟩ := land_spec hs; exact upd hj hops
@@ -362,8 +394,6 @@ def allowedOn (u B : Int) (ids : List Identity) (s : State) : Label → Bool
       (match o.nextKA with | some k => decide (s.now + d ≤ k + B) | none => true)))
   | .expire j => ids.all (fun i => opOk s i (fun o => !o.alive ||
       (match o.nextKA with | some k => decide (latestDeadline u s.status j s.now ≤ k + B) | none => true)))
-  | .deliverStale i view => opOk s i (fun o => benignView u s i o.prio view)
-  | .exitBegin _ => false
   | .wakeIssue _ => false
   | .land _ => false
   | .foreign j _ => (s.ops j).isNone
@@ -389,10 +419,8 @@ theorem allowedOn_sound {u B : Int} {ids : List Identity} {s : State} {l : Label
     intro i o k ho ha hk
     have := key _ h i o ho
     simpa [ha, hk] using this
-  | deliverStale i view =>
-    intro o ho
-    simpa [allowedOn, opOk, ho] using h
-  | exitBegin i => simp [allowedOn] at h
+  | deliverStale i view vv => trivial
+  | exitBegin i => trivial
   | wakeIssue i => simp [allowedOn] at h
   | land i => simp [allowedOn] at h
   | foreign j r =>
